@@ -69,6 +69,9 @@ func genC05Case(t *rapid.T) (c *ScalarCase, rule, class string) {
 		switch class {
 		case "near":
 			v = editOnce(t, member)
+			if rapid.IntRange(0, 4).Draw(t, "secondEdit") == 0 {
+				v = editOnce(t, v)
+			}
 		case "random":
 			v = randomHostile(t)
 		}
@@ -190,7 +193,11 @@ func genC05Case(t *rapid.T) (c *ScalarCase, rule, class string) {
 				case "string":
 					es = append(es, desc.Str(rapid.SampledFrom([]string{"a", "b", "c", "1", "1.0", ""}).Draw(t, "e")))
 				case "float64", "float32":
-					es = append(es, desc.V{F: rapid.SampledFrom([]float64{1, 1.5, 2, 0.5}).Draw(t, "e")})
+					f := rapid.SampledFrom([]float64{1, 1.5, 2, 0.5, 0.1, 0.10000000149011612, 19.99, 16777216, 16777217}).Draw(t, "e")
+					if ek == "float32" {
+						f = float64(float32(f))
+					}
+					es = append(es, desc.V{F: f})
 				case "bool":
 					es = append(es, desc.V{B: rapid.Bool().Draw(t, "e")})
 				default:
@@ -245,13 +252,22 @@ func genC05Case(t *rapid.T) (c *ScalarCase, rule, class string) {
 			case "bool":
 				c.T, c.Val = desc.Scalar(k), desc.V{B: true}
 			case "float64", "float32":
-				c.T, c.Val = desc.Scalar(k), desc.V{F: rapid.SampledFrom([]float64{1, 1.5, 2, 10}).Draw(t, "f")}
+				f := rapid.SampledFrom([]float64{1, 1.5, 2, 10, 0.1, 19.99, 1.1, 0.001, 3.0000001, 16777217, 1e-7, 123456.789}).Draw(t, "f")
+				if k == "float32" {
+					f = float64(float32(f))
+				}
+				c.T, c.Val = desc.Scalar(k), desc.V{F: f}
 			case "uint8":
 				c.T, c.Val = desc.Scalar(k), desc.V{U: uint64(rapid.SampledFrom([]int{1, 2, 10, 3}).Draw(t, "u"))}
 			default:
 				c.T, c.Val = desc.Scalar(k), desc.V{I: int64(rapid.SampledFrom([]int{1, 2, 10, 3, -1}).Draw(t, "i"))}
 			}
 			class = "typed-" + k
+			// half of the time the value's canonical decimal rendering is one of the options
+			if canon := canonOf(k, c.Val); rapid.Bool().Draw(t, "canonAmongOpts") && safeOpt(canon) {
+				quoted[rapid.IntRange(0, len(quoted)-1).Draw(t, "canonPos")] = canon
+				item = rule + "=(" + strings.Join(quoted, "/") + ")"
+			}
 		} else {
 			o := rapid.SampledFrom(opts).Draw(t, "hitOpt")
 			if rule == "include" && class == "member" {
